@@ -15,6 +15,57 @@ func init() {
 	env.Register("C03_Commits", C03_Commits)
 	env.Register("C03_FutureCommit", C03_FutureCommit)
 	env.Register("C04_NewViewCommit", C04_NewViewCommit)
+	env.Register("C04_LeaderReproposal", C04_LeaderReproposal)
+}
+
+// C04_LeaderReproposal: weighted committee [1,2,3,4]; the correct node 3 (weight 4) accepted and PREPAREd
+// proposal G in view 0 without becoming prepared, then times out up to view 3, which it leads. The Byzantine
+// member 2 (weight 3) holds a genuine prepared proof of G (leader 0 + node 3 + itself) and votes for view 3
+// with that proof but attaches a block with symbolic tag / acceptability. It then sends genuine PREPARE and
+// COMMIT for the proven hash. Whatever node 3 commits must satisfy the certified hash and must have been
+// approved by a correct member.
+func C04_LeaderReproposal() {
+	const me, byz = 3, 2
+	w := []uint64{1, 2, 3, 4}
+	wd := newWorld(me, w)
+	n, net := wd.n, wd.net
+	g := &stub.Block{H: 1, Tag: 0x21, ProposalOK: true}
+	n.deliver(net.ppm(0, 1, 0, g).ToConsensusRawMessage())
+	_, prep0 := wd.termPrepared()
+	env.Assert("C04.setup.not_prepared", !prep0)
+	n.timeout()
+	n.timeout()
+	n.timeout()
+	env.Assert("C04.setup.leader_of_view3", n.m.state.View() == 3)
+	// the Byzantine vote: genuine proof of G, arbitrary attached block
+	proof := net.prepared(1, 0, g, []int{me, byz})
+	full := net.vcm(byz, 1, 3, proof)
+	attached := symBlock("att")
+	var att interfaces.Block = attached
+	if env.NondetBool("attach_the_proven_block") {
+		att = g
+	}
+	n.deliver(interfaces.NewViewChangeMessage(full.Content(), att).ToConsensusRawMessage())
+	hash := stub.HashOf(g)
+	n.deliver(net.pm(byz, 1, 3, hash).ToConsensusRawMessage())
+	n.deliver(net.cm(byz, 1, 3, hash).ToConsensusRawMessage())
+	if len(n.commits) == 0 {
+		env.Reach("C04.leader.no_commit")
+		return
+	}
+	env.Reach("C04.leader.committed")
+	c := n.commits[0]
+	env.Assert("C04.block_present", c.block != nil)
+	if c.block == nil {
+		return
+	}
+	env.Assert("C04.height", c.block.H == 1)
+	env.Assert("C04.hash", stub.Commits(c.block, protocol.BlockProofReader(c.proof).BlockRef().BlockHash()))
+	approved := false
+	for _, v := range n.bu.Validations {
+		approved = env.Or(approved, env.And(v.OK, sameBlock(v.Block, c.block)))
+	}
+	env.Assert("C04.approved_by_correct", approved)
 }
 
 // roundWith delivers an honest view-0 round for height h to node n using the peers of `net`
@@ -155,7 +206,7 @@ func C04_NewViewCommit() {
 	env.Assert("C04.hash", stub.Commits(c.block, protocol.BlockProofReader(c.proof).BlockRef().BlockHash()))
 	approved := false
 	for _, v := range n.bu.Validations {
-		approved = env.Or(approved, env.And(v.OK, v.Block == c.block))
+		approved = env.Or(approved, env.And(v.OK, sameBlock(v.Block, c.block)))
 	}
 	// or certified by a valid prepared proof carried by a genuine vote of the accepted NEW_VIEW
 	for _, v := range vs {
@@ -209,10 +260,10 @@ func (wd *vWorld) checkCommit(c *vCommit, validator *vNode) {
 	// approved by a correct member's consumer: validated OK here, or produced by this node's own RequestNewBlockProposal
 	approved := false
 	for _, v := range n.bu.Validations {
-		approved = env.Or(approved, env.And(v.OK, v.Block == c.block))
+		approved = env.Or(approved, env.And(v.OK, sameBlock(v.Block, c.block)))
 	}
 	for _, r := range n.bu.Requests {
-		approved = env.Or(approved, r.Block == c.block)
+		approved = env.Or(approved, sameBlock(r.Block, c.block))
 	}
 	env.Assert("C04.approved_by_correct", approved)
 }
@@ -256,4 +307,13 @@ func C03_Commits() {
 	env.Reach("C03.committed")
 	env.Assert("C03.commit_once", len(n.commits) == 1)
 	wd.checkCommit(n.commits[0], validator)
+}
+
+// sameBlock: block identity under the collision-free hash model: equal height and tag (the tag determines
+// acceptability), whatever Go object carries them.
+func sameBlock(a, b *stub.Block) bool {
+	if a == nil || b == nil {
+		return false
+	}
+	return env.And(a.H == b.H, a.Tag == b.Tag)
 }
